@@ -1,9 +1,10 @@
 #!/bin/sh
 # tools/accept.sh  - acceptance run of the machinery on the current trees: every quick check at VERIF_SEED 1..3 and every thorough
 # check at seed 1, each in a fresh process; prints one line per run and a list of non-zero exits at the end.
+# tools/accept.sh C05 C09 ...  - the same for the named properties only (after a change to their checks)
 cd "$(dirname "$0")/.."
 bad=""
-for id in C01 C02 C03 C04 C05 C06 C07 C08 C09 C10 C11 C12 C13 C14 C15 C16 C17 C18 C19 C20; do
+for id in ${*:-C01 C02 C03 C04 C05 C06 C07 C08 C09 C10 C11 C12 C13 C14 C15 C16 C17 C18 C19 C20}; do
   for s in 1 2 3; do
     VERIF_SEED=$s ./check $id quick > /tmp/accept.$$ 2>&1; rc=$?
     grep -E "^$id |VIOLATION|HARNESS-ERROR" /tmp/accept.$$ | cut -c1-200
